@@ -7,9 +7,7 @@ Local Open Scope list_scope.
 
 Theorem C05_reached :
   forall (notes : list (string * option string * list dblock)) (ops : list op) (s : gstate),
-         plain_notes notes ->
          distinct_keys notes ->
-         plain_ops ops ->
          reached notes ops s ->
          wf_arena (arena_of s) /\
          wf_arenab (arena_of s) = true /\
@@ -25,9 +23,7 @@ Theorem C05_reached :
 Proof. exact Reachable.reached_C05. Qed.
 Check C05_reached :
   forall (notes : list (string * option string * list dblock)) (ops : list op) (s : gstate),
-         plain_notes notes ->
          distinct_keys notes ->
-         plain_ops ops ->
          reached notes ops s ->
          wf_arena (arena_of s) /\
          wf_arenab (arena_of s) = true /\
@@ -60,16 +56,16 @@ Check C05_arena_ok_not_wf_refuted :
            wf_arenab a = false /\ ~ fwd a /\ ~ wf_arena a /\ tombs_cleanb a = false.
 Print Assumptions C05_arena_ok_not_wf_refuted.
 
-Theorem C05_covers_plain :
+Theorem C05_covers_update :
   forall (g : graph) (key : string) (meta : option string) (bs : list dblock) (g' : graph),
          graph_inv g ->
          tombs_clean (gr_arena g) ->
-         plain bs -> update_key g key meta bs = Ok g' -> covers true (gr_arena g) (gr_arena g').
-Proof. exact Reachable.covers_plain. Qed.
-Check C05_covers_plain :
+         update_key g key meta bs = Ok g' -> covers true (gr_arena g) (gr_arena g').
+Proof. exact Reachable.covers_update. Qed.
+Check C05_covers_update :
   forall (g : graph) (key : string) (meta : option string) (bs : list dblock) (g' : graph),
          graph_inv g ->
          tombs_clean (gr_arena g) ->
-         plain bs -> update_key g key meta bs = Ok g' -> covers true (gr_arena g) (gr_arena g').
-Print Assumptions C05_covers_plain.
+         update_key g key meta bs = Ok g' -> covers true (gr_arena g) (gr_arena g').
+Print Assumptions C05_covers_update.
 
